@@ -224,6 +224,54 @@ def quadrature_history(res, rng):
                 fail(res, f'{nm}: beta differs from E[g]/sd[g] after earlier calls with other quadDeg / quadRange', case, {'beta': float(b), 'exact': exact})
 
 
+def scale_and_reach(res, rng):
+    """(1) the index does not depend on the unit of g: the same linear-Gaussian problem with g (and its gradient) multiplied by 2^-44 … 2^-70
+    (values of 1e-13 … 1e-21) must give the beta of the unscaled problem in mvalFOSM, hlrfFORM and coptFORM (theorems C10m_scale_*);
+    (2) a design point further out than the quadrature half-width: beta = 6.64 with quadRange = 6 (the quadrature range belongs to the latent
+    correlation, not to the search for the design point)"""
+    core.import_impl()
+    from scipy import stats
+    from ffpack import rrm
+    for k2 in (-44, -50, -60, -70):
+        sc = 2.0 ** k2
+        c, c0 = [3.0, -2.0], 10.0
+        exact = c0 / math.sqrt(c[0] ** 2 + c[1] ** 2)
+        g = lambda X, sc=sc: sc * (c0 + c[0] * X[0] + c[1] * X[1])
+        dg = [lambda X, sc=sc: sc * c[0], lambda X, sc=sc: sc * c[1]]
+        dists = [stats.norm(0.0, 1.0), stats.norm(0.0, 1.0)]
+        case = {'g': 'k * (10 + 3 x1 - 2 x2)', 'k': sc, 'marginals': 'two independent N(0, 1)', 'exact_beta': exact}
+        res.evaluations += 1
+        res.stat('form_limit_state_of_tiny_magnitude')
+        outs = {}
+        for nm, f in (('mvalFOSM', lambda: rrm.mvalFOSM(2, g, dg, [0.0, 0.0], [1.0, 1.0])[0]),
+                      ('hlrfFORM', lambda: rrm.hlrfFORM(2, g, dg, dists, [[1.0, 0.0], [0.0, 1.0]])[0])):
+            try:
+                outs[nm] = float(f())
+            except Exception as e:  # noqa
+                fail(res, nm + ' raised on a linear-Gaussian problem whose limit state is given in a small unit', case, repr(e)[:160])
+                continue
+            if abs(outs[nm] - exact) > 1e-8 * (1 + abs(exact)):
+                fail(res, nm + ': beta depends on the unit of the limit state (g multiplied by a small positive constant)', case, {'beta': outs[nm], 'exact': exact})
+    for (c0, c, qr) in ((21.0, [3.0, 1.0], 6), (20.0, [2.0, 2.0, 1.0], 6), (13.0, [1.0, 1.0], 5)):
+        d = len(c)
+        exact = c0 / math.sqrt(sum(v * v for v in c))
+        g = lambda X, c0=c0, c=c: c0 + sum(ci * xi for ci, xi in zip(c, X))
+        dg = [(lambda X, ci=ci: ci) for ci in c]
+        dists = [stats.norm(0.0, 1.0) for _ in c]
+        R = [[1.0 if i == j else 0.0 for j in range(d)] for i in range(d)]
+        case = {'g': f'{c0} + {c} . x', 'marginals': 'independent N(0, 1)', 'quadRange': qr, 'exact_beta': exact}
+        res.evaluations += 1
+        res.stat('form_design_point_beyond_quadRange')
+        try:
+            bh = float(rrm.hlrfFORM(d, g, dg, dists, R, quadRange=qr)[0])
+            bc = float(rrm.coptFORM(d, g, dists, R, quadRange=qr)[0])
+        except Exception as e:  # noqa
+            fail(res, 'FORM raised on a linear-Gaussian problem with a design point beyond quadRange', case, repr(e)[:160])
+            continue
+        if abs(bh - exact) > 1e-6 * exact or abs(bc - exact) > 2e-3 * exact:
+            fail(res, 'beta is not E[g]/sd[g] when the design point lies beyond quadRange', case, {'hlrf': bh, 'copt': bc, 'exact': exact})
+
+
 def recorded_limits(res):
     """two recorded limitations: (a) the Nataf quadrature at |rho| >= 0.98 makes FORM inexact on linear-Gaussian problems;
     (b) the numerical gradient uses an absolute step 1e-6, below the float spacing of Pa-sized variables"""
@@ -271,6 +319,7 @@ def run(tier, seed):
     recorded_limits(res)
     config_runs(res, random.Random(seed + 3))
     quadrature_history(res, random.Random(seed + 5))
+    scale_and_reach(res, random.Random(seed + 6))
     res.traces = res.evaluations
     # executable Lean model of the HL-RF loop / mvalFOSM (Model/Form.lean) against the implementation, iterate by iterate
     formmodel.form_stream(res, random.Random(seed + 7), 40 if tier == 'quick' else 1500)
